@@ -1,6 +1,8 @@
 package chainsim
 
 import (
+	"github.com/bandprotocol/chain/v3/pkg/tickmath"
+	"math/bits"
 	"bytes"
 	"encoding/hex"
 	"fmt"
@@ -34,6 +36,7 @@ type provenance struct {
 }
 
 type C11 struct {
+	nTickDiff int
 	prov       map[uint64]*provenance
 	checked    map[uint64]bool
 	messages   map[string]uint64
@@ -53,6 +56,44 @@ func (m *C11) OnBlock(e *Env, blk *world.BlockRecord) {
 	chain := e.W.Cfg.ChainID
 	if m.prov == nil {
 		m.prov, m.checked, m.messages, m.prevPrices, m.kinds = map[uint64]*provenance{}, map[uint64]bool{}, map[string]uint64{}, map[string]feedstypes.Price{}, map[string]int{}
+	}
+	// differential draws of the real tick encoder on boundary-family prices (the same function encodes every tick-encoded payload;
+	// histories reach only the prices the market actor happened to hold when a signing was requested)
+	for i := 0; i < 6; i++ {
+		var p uint64
+		switch e.Ch.Intn("c11.tick.family", 4) {
+		case 0:
+			p = e.Ch.U64("c11.tick.any")
+		case 1:
+			p = e.Ch.U64("c11.tick.small") >> uint(e.Ch.Intn("c11.tick.shift", 64))
+		default:
+			k := e.Ch.Intn("c11.tick.pow2", 64)
+			p = uint64(1) << uint(k)
+			switch e.Ch.Intn("c11.tick.pow2off", 4) {
+			case 1:
+				p++
+			case 2:
+				p--
+			case 3:
+				if k > 16 {
+					p += e.Ch.U64("c11.tick.pow2low") >> uint(64-(k-16))
+				}
+			}
+		}
+		if p == 0 {
+			continue
+		}
+		enc, err := tickmath.PriceToTick(p)
+		if err != nil {
+			e.Fail("C11", "tick_encoding_differential", "error", "PriceToTick(%d) fails: %v", p, err)
+			return
+		}
+		ok, conclusive := ref.TickBracket(p, enc)
+		m.nTickDiff++
+		if conclusive && !ok {
+			e.Fail("C11", "tick_encoding_differential", "", "PriceToTick(%d) = %d, which is not the largest tick whose price does not exceed it", p, enc)
+			return
+		}
 	}
 	now := blk.Time.Unix()
 	bind := func(bandtssID uint64, p *provenance) {
@@ -220,6 +261,13 @@ func (m *C11) checkPrices(e *Env, sid uint64, kind string, enc int32, got []ref.
 				continue
 			}
 			m.nTick++
+			if w.Price > 2 {
+				// reach probe: prices within 2^-16 (relative) above a power of two, where bit-length based arithmetic changes regime
+				top := uint64(1) << uint(63-bits.LeadingZeros64(w.Price))
+				if w.Price-top <= top>>16 {
+					e.St.Probe("c11_tick_encoding_of_price_just_above_power_of_two")
+				}
+			}
 			if !ok {
 				e.Fail("C11", "tick_encoding", "", "signing %d: price %d of %s is encoded as tick value %d, which is not the largest tick whose price does not exceed it", sid, w.Price, w.SignalID, got[i].Value)
 				return false
@@ -355,6 +403,7 @@ func (m *C11) Finish(e *Env)       {}
 func (m *C11) NonTrivial(e *Env) bool {
 	e.St.ProbeN("c11_signings_checked", m.nChecked)
 	e.St.ProbeN("c11_tick_encodings_checked", m.nTick)
+	e.St.ProbeN("c11_tick_differential_draws", m.nTickDiff)
 	e.St.ProbeN("c11_tick_inconclusive", m.nTickInconclusive)
 	e.St.ProbeN("c11_internal_content_rejected", m.nInternalRejected)
 	for _, k := range sortedKeysInt(m.kinds) {
